@@ -28,6 +28,8 @@ pub enum ROp {
     ReadToEnd(u8),
     /// Read::read_exact with a buffer of the given size class
     ReadExact(u8, u16),
+    /// read to the end in pieces of 1..7 bytes: one handle serves hundreds of calls
+    Drain(u8),
 }
 
 #[derive(Clone, Debug, PartialEq)]
@@ -51,6 +53,7 @@ pub fn rop_strategy() -> impl Strategy<Value = ROp> {
         5 => (whence_strategy(), off_strategy()).prop_map(|(w, o)| ROp::Seek(w, o)),
         1 => any::<u8>().prop_map(ROp::ReadToEnd),
         1 => (any::<u8>(), any::<u16>()).prop_map(|(k, n)| ROp::ReadExact(k, n)),
+        1 => any::<u8>().prop_map(ROp::Drain),
     ]
 }
 
@@ -60,6 +63,17 @@ pub fn wop_strategy() -> impl Strategy<Value = WOp> {
         2 => (whence_strategy(), off_strategy()).prop_map(|(w, o)| WOp::Seek(w, o)),
         1 => Just(WOp::Flush),
     ]
+}
+
+/// piece size of a Drain op: 1..7 bytes, scaled up for big files so that a drain stays below
+/// ~25 000 calls
+pub fn drain_piece(k: u8, remaining: u64) -> usize {
+    let base = 1 + (k % 7) as usize;
+    if remaining > 20_000 {
+        base * 257
+    } else {
+        base
+    }
 }
 
 /// read size from (kind, n): boundary sizes and arbitrary ones
@@ -99,6 +113,9 @@ pub fn seek_from(w: &Whence, o: &Off, len: u64, extremes: bool, bound: Option<u6
         11 => {
             if extremes {
                 i64::MAX
+            } else if o.delta % 4 == 3 {
+                // a gap of one or two MiB (write scripts are bounded by WRITE_SEEK_BOUND)
+                l + (1 << 20) * (1 + (o.delta as i64 & 4) / 4) + d
             } else {
                 l + 1000
             }
@@ -148,6 +165,7 @@ pub fn run_read_script(
     let len = content.len() as u64;
     let mut outside = false;
     let mut nontrivial = false;
+    let mut many_reads = false;
     for op in script {
         match op {
             ROp::Seek(w, o) => {
@@ -195,6 +213,35 @@ pub fn run_read_script(
                 }
                 if outside {
                     nontrivial = true;
+                }
+            }
+            ROp::Drain(k) => {
+                let pos = model.position();
+                let mut expect = vec![];
+                model.read_to_end(&mut expect).unwrap();
+                let piece = drain_piece(*k, expect.len() as u64);
+                let mut got = vec![];
+                let mut calls = 0u32;
+                let mut buf = [0u8; 2048];
+                loop {
+                    calls += 1;
+                    if calls as usize > expect.len() / piece + 16 {
+                        return Err(format!("reading to the end in pieces of {} from position {}: still delivering after {} calls although only {} bytes remain", piece, pos, calls, expect.len()));
+                    }
+                    match handle.read(&mut buf[..piece]) {
+                        Ok(0) => break,
+                        Ok(n) if n > piece => return Err(format!("read into {} bytes returned {}", piece, n)),
+                        Ok(n) => got.extend_from_slice(&buf[..n]),
+                        Err(e) => return Err(format!("read #{} of {} bytes (draining from position {}) failed: {}", calls, piece, pos, e)),
+                    }
+                }
+                trace.push(format!("drain in pieces of {} from {} -> {} bytes in {} calls", piece, pos, got.len(), calls));
+                if got != expect {
+                    let at = got.iter().zip(expect.iter()).position(|(a, b)| a != b).unwrap_or(got.len().min(expect.len()));
+                    return Err(format!("reading to the end in pieces of {} from position {} of {}: {} bytes delivered, {} expected; first difference at offset {} (call #{})", piece, pos, len, got.len(), expect.len(), at, at / piece + 1));
+                }
+                if calls >= 160 {
+                    many_reads = true;
                 }
             }
             ROp::ReadExact(k, n) => {
@@ -251,6 +298,7 @@ pub fn run_read_script(
             }
         }
     }
+    let _ = many_reads;
     Ok(nontrivial)
 }
 
@@ -260,7 +308,7 @@ pub trait WriteSeek: Write + Seek {}
 impl<T: Write + Seek + ?Sized> WriteSeek for T {}
 
 /// Write-seek positions are bounded (memory, not logic: a cursor zero-fills up to the position)
-pub const WRITE_SEEK_BOUND: u64 = 1 << 20;
+pub const WRITE_SEEK_BOUND: u64 = 3 << 20;
 
 /// Apply a write script to a real handle and to a Cursor<Vec<u8>> model.
 /// `check_visible(model_bytes)` is called after every Flush (the handle is still open).
@@ -357,6 +405,7 @@ pub fn rops_to_json(s: &[ROp]) -> Value {
                 ROp::Seek(w, o) => json!(["seek", whence_json(w), o.anchor, o.delta]),
                 ROp::ReadToEnd(k) => json!(["read_to_end", k]),
                 ROp::ReadExact(k, n) => json!(["read_exact", k, n]),
+                ROp::Drain(k) => json!(["drain", k]),
             })
             .collect(),
     )
@@ -371,6 +420,7 @@ pub fn rops_from_json(v: &Value) -> Vec<ROp> {
                         "read" => Some(ROp::Read(x.get(1)?.as_u64()? as u8, x.get(2)?.as_u64()? as u16)),
                         "read_to_end" => Some(ROp::ReadToEnd(x.get(1).and_then(|y| y.as_u64()).unwrap_or(0) as u8)),
                         "read_exact" => Some(ROp::ReadExact(x.get(1)?.as_u64()? as u8, x.get(2)?.as_u64()? as u16)),
+                        "drain" => Some(ROp::Drain(x.get(1)?.as_u64()? as u8)),
                         _ => Some(ROp::Seek(
                             whence_from(x.get(1)?.as_str()?),
                             Off { anchor: x.get(2)?.as_u64()? as u8, delta: x.get(3)?.as_i64()? as i8 },
